@@ -14,9 +14,23 @@ export function makeCanon(state, protocol) {
   const slotCalls = protocol.slotCalls || 1;
   const seen = [];
 
+  let fnDepth = 0;
   function fnTag(f) {
     const id = state.fnIds.get(f);
-    return { $: 'fn', id: id === undefined ? 'anon' : id };
+    const out = { $: 'fn', id: id === undefined ? 'anon' : id };
+    if (protocol.callFunctions && fnDepth < 3) {
+      // compare anonymous functions by what they return
+      fnDepth++;
+      try {
+        const r = f();
+        out.async = r instanceof Promise;
+        out.ret = canon(r);
+      } catch (e) {
+        out.ret = canonError(e, 'call');
+      }
+      fnDepth--;
+    }
+    return out;
   }
 
   function canonSlots(children) {
